@@ -61,6 +61,11 @@ claimed = {
   text="sema_llgo.go from the working tree runs against stand-in mutex/cond/once/atomics that are scheduling points; rapid draws acquire/release and Cond-shaped ticket/wait/notify scripts for 2-4 threads plus all scheduling decisions; invariants: acquires bounded by initial + releases, Wait returns only when a notification can cover its ticket, nobody stays blocked at quiescence while its wake-up condition holds. Exploration.",
   note="Fairness/liveness only in safety form; compiled sync/atomic stress programs are not part of this job.",
   design="§3 C11, Appendix A"),
+ "C04": dict(
+  technique="differential testing of rapid-generated programs (defer/panic/recover/Goexit statement language) against gc, compared per unit",
+  text="rapid generates programs of 8-30 independent units mixing unconditional, conditional, loop and range-over-func defers with argument snapshotting, named-result updates, recoverers, re-panics, nested deferred calls, panics, run-time faults, early returns and Goexit, on the main goroutine and in goroutines; every program is built by gc and by the llgo under test (O0 + O2, or O0 + Oz with runtime imported) and traces are compared unit by unit. Exploration only.",
+  note="gc output is the reference; recover from a helper frame is confined to dedicated units (listed finding); recoverers registered inside range-over-func bodies are not generated (unsettled corner policed by gc's own run-time check).",
+  design="§3 C04"),
 }
 not_yet = "check not built yet in this session (see DESIGN.md §3 for the planned generated-input check)"
 
